@@ -78,6 +78,11 @@ func specMentions(p *Prog, fs *FuncSpec, prop string) bool {
 			return true
 		}
 	}
+	for _, c := range fs.REnsures {
+		if hasProp(c.Props, prop) && len(c.Props) > 0 {
+			return true
+		}
+	}
 	for _, c := range fs.Relational {
 		if hasProp(c.Props, prop) && len(c.Props) > 0 {
 			return true
@@ -120,6 +125,24 @@ func runProperty(p *Prog, prop, tier string, onlyFunc string) *PropRun {
 		names = []string{onlyFunc}
 	}
 	pr.Funcs = names
+	// spec lemmas tagged with this property are proved here
+	for _, lm := range p.specs.Lemmas {
+		if onlyFunc != "" && onlyFunc != lm.Name {
+			continue
+		}
+		if onlyFunc == "" && !(len(lm.Props) > 0 && hasProp(lm.Props, prop)) {
+			continue
+		}
+		res := proveLemma(p, lm)
+		pr.Funcs = append(pr.Funcs, lm.Name)
+		pr.FuncResults[lm.Name] = res
+		pr.Obls = append(pr.Obls, res.Obls...)
+	}
+	if onlyFunc != "" {
+		if _, isLemma := pr.FuncResults[onlyFunc]; isLemma {
+			return pr
+		}
+	}
 	// symbolic execution is single-threaded per function; functions are independent but share
 	// type-id tables, so they run sequentially (fast) and only solving is parallel.
 	for _, name := range names {
@@ -136,6 +159,20 @@ func runProperty(p *Prog, prop, tier string, onlyFunc string) *PropRun {
 		_ = runs
 		x := newExec(p, fn, fs, prop)
 		res := x.verify()
+		if len(fs.REnsures) > 0 && res.Unsupported == "" {
+			rx := newExec(p, fn, fs, prop)
+			rx.relyMode = true
+			rres := rx.verify()
+			for _, o := range rres.Obls {
+				if o.Kind == "rely" {
+					res.Obls = append(res.Obls, o)
+				}
+			}
+			res.Notes = append(res.Notes, rres.Notes...)
+			if rres.Unsupported != "" {
+				res.Unsupported = rres.Unsupported
+			}
+		}
 		if len(fs.Relational) > 0 && res.Unsupported == "" {
 			rx := newExec(p, fn, fs, prop)
 			rres := rx.verifyRelational()
@@ -150,6 +187,12 @@ func runProperty(p *Prog, prop, tier string, onlyFunc string) *PropRun {
 			pr.Notes[n] = true
 		}
 		for _, o := range res.Obls {
+			if o.Kind == "rely" && !hasProp(o.Props, prop) {
+				continue
+			}
+			if strings.Contains(o.DeclText, "opaque.") {
+				o.Axioms = lemmaAxioms(p, x)
+			}
 			if o.Kind == "pre" || o.Kind == "frame" || o.Kind == "vacuity" || o.Kind == "dyntype" || hasProp(o.Props, prop) {
 				pr.Obls = append(pr.Obls, o)
 			}
@@ -162,6 +205,7 @@ func smtText(o *Obligation, negate bool) string {
 	var b strings.Builder
 	b.WriteString(smtPrelude)
 	b.WriteString(o.DeclText)
+	b.WriteString(o.Axioms)
 	if o.NeedsSqrt {
 		b.WriteString(smtSqrtAxioms)
 	}
@@ -393,4 +437,124 @@ func seedFromEnv() int {
 	var n int
 	fmt.Sscan(os.Getenv("VERIF_SEED"), &n)
 	return n
+}
+
+// lemmaAxioms renders every spec lemma as a quantified axiom (triggered on the opaque
+// applications it mentions) for use in all other obligations.
+func lemmaAxioms(p *Prog, x *Exec) string {
+	var b strings.Builder
+	for _, lm := range p.specs.Lemmas {
+		ax, ok := lemmaFormula(p, x, lm, false)
+		if ok {
+			b.WriteString("(assert " + ax + ")\n")
+		}
+	}
+	return b.String()
+}
+
+func lemmaFormula(p *Prog, x *Exec, lm *Lemma, ground bool) (formula string, ok bool) {
+	defer func() {
+		if r := recover(); r != nil {
+			ok = false
+		}
+	}()
+	vars := map[string]Val{}
+	var binders []string
+	var ranges []string
+	for i, n := range lm.Params {
+		t, err := p.lookupType(lm.PTypes[i])
+		if err != nil {
+			return "", false
+		}
+		ls := leavesOf(t)
+		if len(ls) != 1 {
+			return "", false
+		}
+		name := "lm_" + sanitize(n)
+		vars[n] = Val{Typ: t, L: []string{name}}
+		binders = append(binders, "("+name+" "+ls[0].Sort+")")
+		if lo, hi, isInt := intRange(t); isInt {
+			ranges = append(ranges, "(<= "+lo+" "+name+")", "(<= "+name+" "+hi+")")
+		}
+	}
+	s := &State{heap: map[string]string{}, held: map[string]heldLock{}}
+	env := &Env{x: x, s: s, vars: vars, heap: s.heap, old: s.heap, inQuant: !ground}
+	body := env.evalBool(lm.Body)
+	pats := opaqueApps(body)
+	if len(pats) == 0 {
+		return "", false
+	}
+	return "(forall (" + strings.Join(binders, " ") + ") (! " + sImp(sAnd(ranges...), body) + " :pattern (" + strings.Join(pats, " ") + ")))", true
+}
+
+// opaqueApps finds the applications "(opaque.f args)" in a term (used as triggers).
+func opaqueApps(t string) []string {
+	var out []string
+	seen := map[string]bool{}
+	for i := 0; i < len(t); i++ {
+		if strings.HasPrefix(t[i:], "(opaque.") {
+			d := 0
+			for j := i; j < len(t); j++ {
+				if t[j] == '(' {
+					d++
+				} else if t[j] == ')' {
+					d--
+					if d == 0 {
+						app := t[i : j+1]
+						if !seen[app] {
+							seen[app] = true
+							out = append(out, app)
+						}
+						break
+					}
+				}
+			}
+		}
+	}
+	return out
+}
+
+// proveLemma: the lemma body with every opaque definition revealed, for arbitrary arguments.
+func proveLemma(p *Prog, lm *Lemma) verifyResult {
+	var res verifyResult
+	defer func() {
+		if r := recover(); r != nil {
+			if e, ok := r.(specErr); ok {
+				res.Unsupported = "spec error: " + e.msg
+				return
+			}
+			if e, ok := r.(unsupportedErr); ok {
+				res.Unsupported = e.msg
+				return
+			}
+			panic(r)
+		}
+	}()
+	spec := &FuncSpec{Name: lm.Name, LoopAssigns: map[int][]string{}}
+	for n, d := range p.specs.Defines {
+		if d.Opaque {
+			spec.Reveal = append(spec.Reveal, n)
+		}
+	}
+	x := &Exec{P: p, spec: spec, D: newDecls(), notes: map[string]bool{}, inputs: map[string]Val{}, params: map[string]Val{}, callCount: map[string]int{}, binds: map[string]Val{}}
+	s := &State{heap: map[string]string{}, held: map[string]heldLock{}}
+	vars := map[string]Val{}
+	for i, n := range lm.Params {
+		t, err := p.lookupType(lm.PTypes[i])
+		if err != nil {
+			specFail("%v", err)
+		}
+		v := x.freshVal(s, t, "lm."+n)
+		vars[n] = v
+		x.inputs[n] = v
+	}
+	env := &Env{x: x, s: s, vars: vars, heap: s.heap, old: s.heap}
+	goal := env.evalBool(lm.Body)
+	o := &Obligation{Name: lm.Name + "/lemma:" + lm.Name[strings.LastIndex(lm.Name, ".")+1:], Func: lm.Name, Kind: "lemma", Label: "holds", Props: lm.Props,
+		PC: append([]string(nil), s.pc...), Goal: goal, Inputs: x.inputs, Clause: &Clause{Text: lm.Text, File: lm.File, Line: lm.Line}}
+	o.DeclText = x.D.text()
+	o.NeedsSqrt, o.NeedsLog = x.usedSqrt, x.usedLog
+	res.Obls = []*Obligation{o}
+	res.Paths, res.RetPaths = 1, 1
+	return res
 }
